@@ -3,6 +3,6 @@ CONSTANTS
   D = 2
   Keys_ = {"k1", "k2"}
   MaxEv = 3
-  MaxTime = 100
+  MaxTime = 12
 PROPERTY EventuallySent
 CHECK_DEADLOCK FALSE
